@@ -424,6 +424,10 @@ def workload(ctx, repo):
              {"years": 10 ** 4298 + 1}, {"years": 10 ** 640},
              {}, {"years": 0}, {"weeks": 0}, {"days": 0, "hours": 0.0},
              {"weeks": 1}, {"weeks": -1}, {"hours": 1.5, "minutes": 3},
+             # counts given as True (an int whose str() is not a numeral)
+             {"years": True}, {"hours": True, "minutes": 2},
+             {"months": True, "days": True}, {"seconds": True},
+             {"minutes": True}, {"weeks": True},
              {"seconds": 0.000001}, {"years": -1, "months": -2, "days": -3,
                                      "hours": -4, "minutes": -5,
                                      "seconds": -6.5}]
